@@ -1,5 +1,7 @@
 """C14 — colocalisation coefficients and block shuffling: pewlib.process.colocal.{li_icq, pearsonr,
-manders, pearsonr_probablity} and pewlib.process.calc.shuffle_blocks against PewModel/Colocal.lean.
+manders, pearsonr_probablity} and pewlib.process.calc.shuffle_blocks against PewModel/Colocal.lean (coefficients, 2-D
+shuffle, the call and loop models with their memory) and PewModel/ColocalNd.lean (the shuffle for arrays of any
+dimension; every shuffle case goes through it, 1-D and 2-D cases also through the 2-D model).
 
 Observation points: the return values and the argument arrays (images, mask) before/after each call.
 `numpy.random.permutation` is replaced inside `evaluate` by a recorded, seeded permutation (restored
@@ -137,7 +139,11 @@ class C14(Prop):
             "prob: 2-D pairs, mask None/full/partial/ragged, blocks 1..5, n = 0..6 (n = 0: NaN, model only), all layouts. non-trivial = at least two blocks "
             "selected and moved, or a non-multiple shape, or a partial mask, or ties/threshold-on-value in coeff; distinct by "
             "canonical case hash")
-    trusted = ["np.pad(mode='edge'), np.nonzero, ravel_multi_index/unravel_index, fancy-index assignment, as_strided as documented; "
+    trusted = ["the contiguity flags of the argument array (x.flags.c_contiguous / f_contiguous) are read from NumPy and are part of the input "
+               "description; from them the Lean model derives whether the block view aliases the array (np.pad keeps Fortran order only for "
+               "arrays that are Fortran- and not C-contiguous; np.ascontiguousarray copies exactly when the array is not C-contiguous; "
+               "ndarray.copy() is C-ordered) - checked for 1-D..4-D arrays in C, Fortran, strided and axis-permuted layouts",
+               "np.pad(mode='edge'), np.nonzero, ravel_multi_index/unravel_index, fancy-index assignment, as_strided as documented; "
                "the harness's stand-in for numpy.random.permutation returns a permutation of its argument; Pearson's r compared "
                "at 1e-9 + 64*eps*(|E xy| + |Ex Ey|)/(sx sy); rs > r decisions closer than that may go either way",
                "extreme units (xscale:*): the Lean definitions are evaluated on the exact values in ordinary units (r does not depend "
@@ -254,7 +260,7 @@ class C14(Prop):
                 "mask": None if rng.random() < 0.25 else mk["data"], "block": b, "partial": rng.random() < 0.5,
                 "n": rng.choice([0] + [1, 2, 3, 4, 5, 6] * 5), "perm": rng.choice(["random"] * 14 + ["identity", "reverse"]),
                 "pseed": rng.randrange(10 ** 9), "gen": [style, "mask:" + mk["kind"]],
-                "layout": rng.choice(["C", "C", "F", "strided"]), "mask_layout": rng.choice(["C", "C", "F"])}
+                "layout": rng.choice(["C", "C", "F", "strided", "strided0", "transposed"]), "mask_layout": rng.choice(["C", "C", "F"])}
 
     def gen_xpow(self, rng):
         kind = rng.choice(["same", "same", "same", "opposite", "one", "mixed", "mixed", "beyond"])
